@@ -40,6 +40,11 @@ Literal(l) == CASE l = "t" -> <<116, 114, 117, 101>>
 EscCtx(b) == CASE b = 34 -> "eq" [] b = 92 -> "eb" [] b = 47 -> "es" [] b = 98 -> "e8" [] b = 102 -> "ef"
                [] b = 110 -> "en" [] b = 114 -> "er" [] b = 116 -> "et" [] OTHER -> "e"
 
+\* which shape of number just ended (integer, with fraction, exponent only, fraction and exponent): the
+\* implementation reaches different states after each (for Ne/Ns/Nx the field n records a fraction)
+NumKind(s) == CASE s.k \in {"N0", "Ni"} -> "ni" [] s.k = "Nf" -> "nf"
+                [] s.k = "Nx" -> (IF s.n = 1 THEN "nfx" ELSE "nx") [] OTHER -> "n"
+
 \* state after a complete value of kind vk that sat at context ctx, given the
 \* stack *after* any pop
 AfterValue(cfg, stk, ctx, vk) ==
@@ -118,25 +123,25 @@ Step(cfg, b) ==
                    ELSE IF IsDig19(b) THEN Go(cfg, St("Ni", c, "1", 0, 0))
                    ELSE Err(cfg)
     [] k = "Nd" -> IF IsDigit(b) THEN Go(cfg, St("Nf", c, "1", 0, 0)) ELSE Err(cfg)
-    [] k = "Ne" -> IF b \in {43, 45} THEN Go(cfg, St("Ns", c, "", 0, 0))
-                   ELSE IF IsDigit(b) THEN Go(cfg, St("Nx", c, "1", 0, 0))
+    [] k = "Ne" -> IF b \in {43, 45} THEN Go(cfg, St("Ns", c, "", s.n, 0))
+                   ELSE IF IsDigit(b) THEN Go(cfg, St("Nx", c, "1", s.n, 0))
                    ELSE Err(cfg)
-    [] k = "Ns" -> IF IsDigit(b) THEN Go(cfg, St("Nx", c, "1", 0, 0)) ELSE Err(cfg)
+    [] k = "Ns" -> IF IsDigit(b) THEN Go(cfg, St("Nx", c, "1", s.n, 0)) ELSE Err(cfg)
     [] k \in {"N0", "Ni", "Nf", "Nx"} ->
-          IF k # "N0" /\ IsDigit(b) THEN Go(cfg, St(k, c, "2", 0, 0))
+          IF k # "N0" /\ IsDigit(b) THEN Go(cfg, St(k, c, "2", s.n, 0))
           ELSE IF k \in {"N0", "Ni"} /\ b = 46 THEN Go(cfg, St("Nd", c, "", 0, 0))
-          ELSE IF k # "Nx" /\ b \in {101, 69} THEN Go(cfg, St("Ne", c, "", 0, 0))
+          ELSE IF k # "Nx" /\ b \in {101, 69} THEN Go(cfg, St("Ne", c, "", IF k = "Nf" THEN 1 ELSE 0, 0))
           ELSE \* the number ended one byte ago: epsilon-move, then re-examine b
             IF cfg.stk = <<>>
-              THEN [cfg EXCEPT !.s = St("DONE", c, "n", 0, 0), !.out = "done", !.end = cfg.pos]
-              ELSE Step([cfg EXCEPT !.s = St(IF Last(cfg.stk)[1] = "A" THEN "AV" ELSE "OV", c, "n", 0, 0)], b)
+              THEN [cfg EXCEPT !.s = St("DONE", c, NumKind(s), 0, 0), !.out = "done", !.end = cfg.pos]
+              ELSE Step([cfg EXCEPT !.s = St(IF Last(cfg.stk)[1] = "A" THEN "AV" ELSE "OV", c, NumKind(s), 0, 0)], b)
     [] OTHER -> Err(cfg)
 
 \* End of input.
 AtEOF(cfg) ==
   IF cfg.out # "run" THEN cfg
   ELSE IF cfg.stk = <<>> /\ cfg.s.k \in {"N0", "Ni", "Nf", "Nx"}
-    THEN [cfg EXCEPT !.s = St("DONE", cfg.s.c, "n", 0, 0), !.out = "done", !.end = cfg.pos]
+    THEN [cfg EXCEPT !.s = St("DONE", cfg.s.c, NumKind(cfg.s), 0, 0), !.out = "done", !.end = cfg.pos]
   ELSE Err(cfg)
 
 RunFrom(cfg, bytes) == FoldLeft(Step, cfg, bytes)
